@@ -214,6 +214,21 @@ CHECKS['C05'] = dict(
          'not read back from their projection are discarded and counted.',
     design='4 C05')
 
+CHECKS['C13'] = dict(
+    technique='Hypothesis-generated metamorphic testing: five meaning-'
+              'preserving transformations of the document or the model, '
+              'outcome equality as the oracle (no reference needed)',
+    text='Generated (model, document) pairs, valid and invalid, x T1 key '
+         'permutation of every class mapping (with by-name corruptions), T2 '
+         're-serialisation in 10 styles (block, flow, double/single quoted, '
+         'literal, canonical, JSON-like, narrow, wide indent, explicit '
+         'markers; same (kind, tag, value) tree checked mechanically), T3 1-3 '
+         'additional unrelated registered classes, T4 List/Sequence/'
+         'MutableSequence and Dict/Mapping/MutableMapping rotated everywhere, '
+         'T5 bool_union_fix inserted at any position of every Union with '
+         'bool: both loads fail or both return equal values.',
+    design='4 C13')
+
 NOT_YET = 'check not built yet in this session (work in progress)'
 
 
